@@ -13,10 +13,10 @@ COMMON_ASSUMPTIONS = [
 ]
 
 
-M_GRAD = {"grad-value", "grad-dims", "grad-presence", "backward-panic", "control-flow", "comparison", "counter-residue", "observation-panic"}
-M_EVAL = {"eval-set", "eval-once", "eval-adjoint", "eval-order", "eval-flags", "eval-operands-tracked", "eval-budget-exhausted", "backward-panic", "counter-residue"}
-M_TRACK = {"eval-flags", "eval-operands-tracked", "tracked-flag", "previous-flag", "grad-presence", "grad-tracked", "into_vec-should-succeed", "grad-value", "observation-panic"}
-M_OWN = {"into_vec-should-succeed", "grad-tracked", "counter-residue"}
+M_GRAD = {"grad-value", "grad-dims", "grad-presence", "backward-panic", "control-flow", "comparison", "observation-panic"}
+M_EVAL = {"eval-set", "eval-once", "eval-adjoint", "eval-order", "eval-flags", "eval-budget-exhausted", "backward-panic"}
+M_TRACK = {"eval-flags", "tracked-flag", "previous-flag", "grad-presence", "grad-tracked", "into_vec-should-succeed", "grad-value", "observation-panic"}
+M_OWN = {"into_vec-should-succeed", "grad-tracked"}
 M_IMM = {"immutable", "live-set"}
 M_UPD = {"update-values", "update-dims", "tracked-flag", "grad-presence", "unexpected-panic"}
 ENGINE_NOTE = ("bounded: all graphs / flag assignments / pass histories within the stated constants are explored by TLC, seeded random and TLC-simulated programs beyond; "
